@@ -77,7 +77,7 @@ Schema == [c \in Class |->
      [] c = "Nasa9" -> << Slot("nasas", "list", <<"SingleNasa9">>, 1), Slot("model", "opt", <<"StatMech">>, 0),
                           Slot("misc_models", "list", Misc, 0) >>
      [] c = "Reference" -> << Slot("model", "one", <<"StatMech">>, 1), Slot("misc_models", "list", Misc, 0) >>
-     [] c = "References" -> << Slot("references", "list", <<"Reference">>, 1) >>
+     [] c = "References" -> << Slot("references", "list", <<"Reference">>, 0) >>
      [] c = "Reaction" -> RxnSlots(Species, Species \o <<"BEP">>)
      [] c = "ChemkinReaction" -> RxnSlots(Empirical, Empirical)
      [] c = "SurfaceReaction" -> RxnSlots(Species, Species \o <<"BEP">>)
@@ -199,7 +199,10 @@ HasKind(t, kd) == \/ t.kind = kd
 
 \* cls.from_dict on a dictionary whose children are `kids`
 FromDict(c, a, kids) ==
-   IF c \in RaisesOnDecode \/ \E s \in DOMAIN kids : \E x \in Rng(kids[s]) : x.kind = "error" THEN Error
+   IF \/ c \in RaisesOnDecode
+      \/ \E s \in DOMAIN kids : \E x \in Rng(kids[s]) : x.kind = "error"
+      \/ ~Required /\ c = "References" /\ kids["references"] = << >>     \* iterates over None
+   THEN Error
    ELSE [kind |-> "obj", c |-> c, a |-> a \ NotRestored(c),
          k |-> [s \in DOMAIN kids |-> IF s \in SlotsNotRestored(c) THEN << >> ELSE kids[s]]]
 
